@@ -81,6 +81,6 @@ macro_rules! slice_shape {
         }
     };
 }
-slice_shape!(k_slice_chunk_14, 14, 4, true, [[(12, 0)], [(12, 1)]]); // no keys
+slice_shape!(k_slice_chunk_14, 14, 4, true, [[(12, 0)]]); // no keys
 slice_shape!(k_slice_chunk_34, 34, 4, true, [[(12, 0)]]); // one plain key
 slice_shape!(k_slice_chunk_58, 58, 6, true, [[(12, 0)], [(12, 4)]]); // one key with 9-slice + pivot / two plain keys
